@@ -260,7 +260,7 @@ impl Leg for Runs {
         (gen::k_strategy(), gen::threads_strategy(), prop::sample::select(vec![1usize, 2, 3, 5, 12, 30]), any::<bool>(), prop::bool::weighted(0.2))
             .prop_flat_map(move |(k, threads, chunks, acgt, decoys)| {
                 let p = rec_params(tier, k);
-                (gen::records_mixed_in_container(p), gen::sched_strategy(true, 120), prop_oneof![3 => Just(0u8), 1 => 1u8..=4, 1 => 10u8..=40]).prop_map(move |((recs, cont), sched, extra_merges)| {
+                (gen::records_mixed_in_container(p), gen::sched_strategy(true, 120), prop_oneof![3 => Just(0u8), 1 => 1u8..=4, 2 => 20u8..=60]).prop_map(move |((recs, cont), sched, extra_merges)| {
                     let threads = if matches!(sched, Sched::Controlled(_)) { ((threads - 1) % 6) + 1 } else { threads };
                     // the scheduler's epochs follow the counting workers only: the extra merges run free
                     let extra_merges = if matches!(sched, Sched::Controlled(_)) { 0 } else { extra_merges };
